@@ -35,7 +35,7 @@ ASSUMPTIONS = [
 MUST_REACH = {
     "roundtrips": 400, "templates_covered": 481, "zerocoded": 20, "with_acks": 20, "with_extra": 20,
     "fill_cases": 50, "fill_mixed_marks_in_one_list": 10, "failed_serializations_before_good_ones": 30, "serialized_twice": 100, "fill_unset_fixed": 1, "fill_unset_variable": 1, "omitted_trailing": 5, "count_255": 1, "count_0": 5,
-    "ref_bytes_equal": 400, "roundtrips_custom_template": 300, "template_file_loads": 10, "header_edits_on_received": 100, "header_edits_on_zerocoded": 10, "header_edits_after_body_parse": 10,
+    "ref_bytes_equal": 400, "roundtrips_custom_template": 300, "template_file_loads": 10, "calls_from_concurrent_threads": 500, "header_edits_on_received": 100, "header_edits_on_zerocoded": 10, "header_edits_after_body_parse": 10,
 }
 
 _ser = UDPMessageSerializer()
@@ -412,6 +412,25 @@ def directed(ctx):
                     check_spec(ctx, spec)
 
 
+def threads_phase(ctx, rng):
+    """One serializer / deserializer pair shared by several threads (serialize() says it is written for that)."""
+    from ..threads import run_concurrently
+    templates = gen_msg.all_templates()
+    jobs = []
+    for _ in range(60):
+        tmpl = rng.choice(templates)
+        spec = gen_msg.limit_for_zerocode(rng, tmpl, {"max_var_len": 400})
+        try:
+            msg = gen_msg.build_message(spec)
+            data = bytes(_ser.serialize(msg))
+            d = _deser.deserialize(data).to_dict()
+        except Exception:
+            continue
+        jobs.append((lambda m=msg: bytes(_ser.serialize(m)), data))
+        jobs.append((lambda b=data: _deser.deserialize(b).to_dict(), d))
+    run_concurrently(ctx, "udp-codec", jobs, reps=ctx.pick(3, 20))
+
+
 def template_files(ctx, rng):
     """Caller-supplied templates usually come from a file.  The same path holds one revision of the template, then another
     (an edit, a roll-back to an older copy with an older time stamp, a second save within the same clock tick): every codec
@@ -466,6 +485,8 @@ def run(ctx):
         directed(ctx)
     if ctx.shard == 1 % max(ctx.nshards, 1):
         template_files(ctx, rng)
+    if ctx.shard == 2 % max(ctx.nshards, 1):
+        threads_phase(ctx, rng)
     for ti, tmpl in enumerate(templates):
         # every shard visits every template (different rng) in thorough; quick splits the per-template budget
         for k in range(per_template):
